@@ -5,6 +5,10 @@ type nat =
 | O
 | S of nat
 
+type ('a, 'b) sum =
+| Inl of 'a
+| Inr of 'b
+
 val fst : ('a1 * 'a2) -> 'a1
 
 val snd : ('a1 * 'a2) -> 'a2
@@ -830,6 +834,9 @@ val count_tables :
 val query_walk : nat -> (nat * nat) list mW
 
 val query_count : nat -> nat mW
+
+val entity_at_tables :
+  nat -> rel list -> bool -> nat list -> nat -> (ent, nat) sum mW
 
 val query_entity_at : nat -> nat -> ent mW
 
